@@ -119,9 +119,16 @@ PAIRS = [('assert_equal', 'assert_not_equal'), ('assert_less', 'assert_greater_e
          ('assert_regex', 'assert_not_regex')]
 
 
+_BOXED_CLASS = {}
+
+
 def boxed(v):
     raw = unwrap(v)
-    return Obj('boxed', value=v, is_error=isinstance(raw, BaseException), is_sandboxed=type(v) is PV)
+    o = Obj('boxed', value=v, is_error=isinstance(raw, BaseException), is_sandboxed=type(v) is PV)
+    if _BOXED_CLASS.get('node') is not None:
+        # the wrapper is pedal's InterpolatedValue: helper methods a refactoring adds to it are found through the class
+        o.attrs['__classdef__'] = _BOXED_CLASS['node']
+    return o
 
 
 class Harness:
@@ -130,6 +137,10 @@ class Harness:
         self.mod = ctx.repo.module(RUNTIME)
         self.errors_fn = self.mod.func('errors')
         self.eq_calls = []
+        try:
+            _BOXED_CLASS['node'] = ctx.repo.module(AFEED).cls('InterpolatedValue')
+        except (AnalysisError, KeyError):
+            _BOXED_CLASS['node'] = None
 
     def condition_fn(self, cls_name):
         ci = self.sym.find_class(RUNTIME, cls_name)
